@@ -581,7 +581,7 @@ class Run(_pr.PhaseRun):
     genotypes keep their alleles unless distrusted; only heterozygous calls of usable variants are phased."""
 
     def filter_shapes(self, shapes):
-        return shapes
+        return [s for s in shapes if not s.get("ped")]
 
     def unreadable(self, e, sc, shape, info):
         e.check(False, "the written VCF cannot be parsed (NUL bytes); tag=HP; samples=2; whole run", info)
